@@ -37,6 +37,21 @@ CHECKS = {
    technique="stateless exhaustive exploration of both real readers over the full input trie (C01 spaces) plus all C03 documents; differential oracle",
    text="Every string of C01's spaces is read by the lossy and the lossless reader; whenever both accept, paragraphs, names and non-blank value lines must be equal and lossy::Paragraph::from_str must agree; every C03 document must be accepted by both readers with equal content. The outcome histogram (both-accept / only-one / both-reject) is in the evidence and a run without both-accept cases fails as vacuous.",
    note="A lossy reader crash on a string that is not a well-formed document is left to C02."),
+ "C07": dict(
+   category="exploration", design_ref="DESIGN.md §3 C07, §2.4",
+   technique="bounded exhaustive enumeration: all documents with <= k layout deviations x the full product of 648 reformatting settings, executed on the real wrap_and_sort entry points with re-read, model and second-application oracles",
+   text="Every generated document (5 skeletons, <= 1 deviation quick / <= 2 thorough on the small ones; comments before/inside/after paragraphs, multi-line values, duplicates, blank-line layouts) is reformatted under every combination of 4 indentations x immediate_empty_line x 3 one-liner limits x 3 paragraph orders x 3 entry orders x 3 formatters; the result must parse strictly, re-read to what the returned object reports, keep paragraphs/fields (requested order), value lines (or the formatter's), every comment on its own line in front of the same field/paragraph, indent continuation lines exactly, separate paragraphs by one blank line, and be a fixed point; Paragraph- and Entry-level entry points are cross-checked; 8 control files x 24 settings go through Control/Source/Binary::wrap_and_sort.",
+   note="Comparators/formatters are limited to ones whose expected effect can be computed from the model (names and values only; layout-insensitive). Control wrappers compare relation fields as whitespace-insensitive multisets."),
+ "C10": dict(
+   category="exploration", design_ref="DESIGN.md §3 C10, §2.4",
+   technique="bounded exhaustive enumeration (k-deviation over all slots of ExA skeletons + full product of relation parts) of generated relationship fields carrying their intended reading, executed on both real readers",
+   text="Every relationship field with <= k deviations (k=1-2 quick, 2-3 thorough) over entry kind (relation/empty/substvar), separator whitespace incl. newlines, trailing comma and, per relation, name, qualifier, 5 operators x 3 versions (epoch, '~'), plain and negated architecture lists, single/multi-term/negated profile groups and inter-part whitespace - plus the full 2700-relation product for one-relation fields x every single whitespace deviation - is read by the lossless reader (strict and tolerant, substvars on/off) and the lossy reader; entries, alternatives and every component must equal the model.",
+   note="Whitespace is varied only where the statement allows; names/versions outside the menus are not explored."),
+ "C13": dict(
+   category="exploration", design_ref="DESIGN.md §3 C13",
+   technique="bounded exhaustive enumeration of generated relationship fields (same space as C10) through the real wrap_and_sort, with canonical-text, multiset-of-multisets, sortedness and fixed-point oracles",
+   text="Every C10 field is normalised; the output must parse strictly, equal the canonical rendering of what it denotes, contain no empty entries, have entries and alternatives sorted by package name (checked with the harness's own comparison), denote the same multiset of entries/alternatives including negations, profile groups and substvars, and normalising the result (live object and re-read) must return identical text.",
+   note="Order among equal names and the position of substvars (before or after entries) are not constrained."),
  "C09": dict(
    category="model_checking", design_ref="DESIGN.md §3 C09, §2.3",
    technique="stateless exhaustive exploration of the real relations lexer/parser over the full input trie (21 character classes to length N, 20 multi-character tokens to T tokens), loop-tick budget for non-termination",
